@@ -3,6 +3,7 @@ CONSTANTS
   P = 5
   Offsets = {0}
   MaxSpans = 2
+  MinSpans = 1
   MaxCopy = 0
   Filters = {"none"}
   Strides = {1, 2, 3}
